@@ -387,7 +387,7 @@ def linefeed_rule(ctx, w, S, R, up):
                                            or (c[1] == "Gt" and c[2] == last and c[3] == row_t and v is True)) for c, v in gs)
             ctx.check(ok2, "W10", "%s:down-last:%s" % (f, shared.site_key(w, f, cs.point)),
                       "%s moves the cursor down a row without having established that it is above the last row (guards: %s)" % (f, [(w.tstr(f, c), v) for c, v in gs]), loc=w.site_loc(cs))
-    ctx.floor("W10", 4, "line-feed sites")
+    ctx.floor("W10", 3, "line-feed sites")
     # the mirror image: reverse index
     ctx.rule("W10r", "reverse index scrolls the region down iff the cursor is on the top margin; otherwise it moves up exactly one row unless it is on row 0 (also above / below the region)")
     tm_t = ("load", ("arg1", R["top_margin"]))
@@ -410,7 +410,8 @@ def linefeed_rule(ctx, w, S, R, up):
             ok = any(c == ("binop", "Eq", row_t, tm_t) and v is False for c, v in gs)
             zero = ("const", 0)
             others = [(c, v) for c, v in gs if c != ("binop", "Eq", row_t, tm_t)]
-            ok0 = len(others) == 1 and others[0][0][0] == "binop" and (
+            ok0 = len(others) == 1 and others[0][0] == row_t and isinstance(others[0][1], tuple) and others[0][1][0] == "not" and tuple(others[0][1][1]) == (0,)
+            ok0 = ok0 or len(others) == 1 and others[0][0][0] == "binop" and (
                 (others[0][0][1:] == ("Gt", row_t, zero) and others[0][1] is True) or (others[0][0][1:] == ("Ne", row_t, zero) and others[0][1] is True) or
                 (others[0][0][1:] == ("Eq", row_t, zero) and others[0][1] is False) or (others[0][0][1:] == ("Ge", row_t, ("const", 1)) and others[0][1] is True))
             ctx.check(ok and ok0, "W10r", "%s:up:%s" % (f, shared.site_key(w, f, cs.point)),
@@ -451,8 +452,10 @@ def ctor_sites(w, S, fn):
         elif cs.callee in helpers:
             actual = [WD.strip_names(T.operand(a, cs.point)) for a in cs.term["args"]]
             mapping = {}
+            hin = w.facts.fns[cs.callee].get("inputs", [])
+            has_self = bool(hin) and (hin[0].get("adt") == S.term_ty or S.term_ty in hin[0]["s"])
             for i, a in enumerate(actual):
-                if i == 0:
+                if i == 0 and has_self:
                     base = a
                     while base[0] in ("ref", "deref"):
                         base = base[2] if base[0] == "ref" else base[1]
